@@ -22,8 +22,8 @@ def build_native():
     return os.path.join(BUILD, 'dshim', 'release', 'frames'), None
 
 
-def native(binp, streams):
-    inp = '\n'.join(json.dumps({'stream': s}) for s in streams) + '\n'
+def native(binp, streams, segments=None):
+    inp = '\n'.join(json.dumps({'stream': s, 'segments': (segments[i] if segments else [])}) for i, s in enumerate(streams)) + '\n'
     r = subprocess.run([binp], input=inp, capture_output=True, text=True)
     return [json.loads(l) for l in r.stdout.splitlines()]
 
@@ -159,6 +159,16 @@ def main(tier, seed):
     for lg in ([5] if tier == 'quick' else [5, 6, 7]):
         jobs.append(dict(n=0, shape=[reg, list(b'PUT t ab'), dict(sym=lg)]))
     jobs.append(dict(n=0, shape=[dict(sym=8), list(b'GET t')]))
+    # a long PUT line (more than 256 bytes) with arbitrary payload bytes
+    # (quick: only a window of 22 bytes around offset 256 is symbolic, the rest of the line is 'a'; thorough: windows
+    #  around 64/128/512/1024 too and one fully symbolic 270-byte line)
+    def longput(total, win_lo):
+        return dict(n=0, shape=[reg, dict(sym=total, lead=list(b'PUT tt ') + [97] * (win_lo - 7)), list(b'GET tt')])
+    jobs.insert(0, longput(270, 248))
+    if tier != 'quick':
+        for total, lo in ((80, 58), (140, 120), (530, 504), (1040, 1016)):
+            jobs.append(longput(total, lo))
+        jobs.append(dict(n=0, shape=[reg, dict(sym=270, lead=list(b'PUT tt ')), list(b'GET tt')]))
     agg = runner.explore_jobs(DRV[0], DRV[1], docs, jobs, {'seed': seed}, min(12, runner.ncpu()), 200 if tier == 'quick' else 2000)
     rep.absorb(agg)
     res = agg['results']
@@ -174,14 +184,16 @@ def main(tier, seed):
         if key in seen or len(seen) >= 8 or not r['stream']:
             continue
         seen.add(key)
-        nres = native(binp, [r['stream']])[0]
+        nres = native(binp, [r['stream']], [r.get('segments') or []])[0]
         rep.replays_run += 1
         nv = judge_native(r['stream'], nres)
+        if not nv and nres.get('result', '').startswith('panic'):
+            nv = 'the connection task panicked natively'
         if not nv:
             rep.inconclusive.append('MODEL-MISMATCH: counterexample stream %s (%s) does not reproduce natively: %s' % (r['stream'], r['detail'], json.dumps(nres)[:300]))
             continue
         rep.replays_agreed += 1
-        path = runner.write_replay(PROP, 'cex_%d' % len(seen), dict(property=PROP, driver='frames', stream=r['stream'], detail=r['detail']))
+        path = runner.write_replay(PROP, 'cex_%d' % len(seen), dict(property=PROP, driver='frames', stream=r['stream'], segments=r.get('segments') or [], detail=r['detail']))
         rep.violation(path, '%s: stream %s (native: %s)' % (r['detail'], r['stream'], nv))
     ws = [r for r in oks if r.get('stream') is not None]
     pick = rng.sample(ws, min(12 if tier == 'quick' else 100, len(ws))) + [r for r in ws if r.get('gets')][:6]
@@ -200,7 +212,7 @@ def main(tier, seed):
 def replay_entry(path):
     s = json.load(open(path))
     binp, err = build_native()
-    nres = native(binp, [s['stream']])[0]
+    nres = native(binp, [s['stream']], [s.get('segments') or []])[0]
     print(json.dumps(nres))
     if judge_native(s['stream'], nres):
         print('VIOLATION property=%s replay=%s' % (PROP, path))
